@@ -1,5 +1,14 @@
 """C15 — the CLI prints exactly what the library generates."""
-import shutil, subprocess
+import shutil, subprocess, threading
+
+
+def feed_pipe(path, data):
+    try:
+        with open(path, "wb") as f:
+            f.write(data)
+    except OSError:
+        pass
+
 from lib import *
 import t3, specgen
 
@@ -89,13 +98,32 @@ def check(rep, tier, rng):
     valids = [n for n, _ in pool if n.startswith("valid")] + ["repo_spec.x", "empty.x"]
     by_len = sorted(valids, key=lambda n: len(dict(pool)[n]))
     arglists += [valids * 3, by_len, by_len[::-1], ["repo_spec.x", v0, "empty.x", v1], ["empty.x", "empty.x", v0]]
+    os.mkfifo(os.path.join(d, "pipe.x"))
+    lib_out["pipe.x"] = lib_out[v0]
+    arglists += [["pipe.x"], ["pipe.x", v1], [v1, "pipe.x"], ["rejected.x", "pipe.x"], [v0, "pipe.x", v1]]      # at most once per list: two writers on one pipe would interleave
     arglists += [[v0, v0], [v0, v1, v0], [v0, "sub/../" + v0], [v0, "link_to_v0.x"], ["./" + v0, v0, v0], [v1, v1, v1], ["rejected.x", "rejected.x"], [v0, "rejected.x", v0]]
     model = run_driver(["cli %s %s" % (t3.hx(exe), " ".join(lib_out[a] for a in args)) for args in arglists])
     nviol, tie, distinct, kinds = 0, 0, set(), {}
     for args, m in zip(arglists, model):
         # arguments are passed as they are (relative to the working directory), so `-`, `--`, `` reach the program literally; stdin holds a
         # valid specification, so a program that reads it shows a module nobody asked for
+        # `pipe.x` is a named pipe: a writer feeds it the text of the first valid file for every time it is named (a path need not be a
+        # regular file: `fastxdr <(cpp spec.x)`); a program that sizes its read by the file's length reads nothing from it
+        feeders = []
+        for _ in range(sum(1 for a_ in args if a_ == "pipe.x")):
+            th = threading.Thread(target=feed_pipe, args=(os.path.join(d, "pipe.x"), pool[0][1]), daemon=True)
+            th.start()
+            feeders.append(th)
         p = subprocess.run([exe] + list(args), capture_output=True, timeout=120, cwd=d, input=pool[1][1])
+        for th in feeders:
+            if th.is_alive():
+                # the program never opened the pipe (an earlier argument failed): release the writer
+                try:
+                    fd = os.open(os.path.join(d, "pipe.x"), os.O_RDONLY | os.O_NONBLOCK)
+                    th.join(2)
+                    os.close(fd)
+                except OSError:
+                    pass
         # oracle straight from the property: concatenation of the library's texts + newline each, exit 0 / non-zero
         outs = [lib_out[a] for a in args]
         want_out, want_ok = b"", bool(args)
